@@ -35,7 +35,7 @@ func (a *Arguments) IsSet(argumentIndex int) bool {
 
 	if a.pipedVal != nil && !a.args.HasPipeSlot {
 		if argumentIndex == 0 {
-			return true
+			return notNil(*a.pipedVal)
 		}
 		// call has an implicit first argument, so we adjust the
 		// index before looking it up in the parsed a.args slice
@@ -46,7 +46,7 @@ func (a *Arguments) IsSet(argumentIndex int) bool {
 		e := a.args.Exprs[argumentIndex]
 		switch e.Type() {
 		case NodeUnderscore:
-			return a.pipedVal != nil
+			return a.pipedVal != nil && notNil(*a.pipedVal)
 		default:
 			return a.runtime.isSet(e)
 		}
